@@ -239,6 +239,37 @@ def run (c : Cfg) (ts : List Tok) : St × List Ev :=
   (s, e0 ++ e)
 
 
+/-! ### BIP324 (v2) transport variants of the connection
+
+The message-level automaton is the same; what differs is how the byte stream starts and ends.
+* `runV2`: both sides speak v2. Messages arrive as decrypted packets; a transport-level end of
+  stream is not reported through `readMessage`'s `OnRead`, so the run is the fold over the tokens
+  without the final `eof` token (closing in any phase emits nothing).
+* `runV2dgIn`: inbound peer configured for v2, remote speaks v1. `RespondV2Handshake` compares the
+  first 16 bytes with magic ‖ "version": a well-formed first `version` message downgrades the
+  connection to v1 and the run is the v1 run; anything else makes the peer answer with its
+  ElligatorSwift key (`keyOnly`) and the handshake then dies; an empty stream yields nothing.
+* outbound peer configured for v2, remote speaks v1: the peer sends its key, nothing else is
+  observable, and `ShouldDowngradeToV1` is set exactly when the remote hung up without sending
+  a byte (`v2dgOutDowngrade`); the caller then reconnects with v1 (an ordinary `run`). -/
+
+def runV2 (c : Cfg) (ts : List Tok) : St × List Ev :=
+  let (s0, e0) := init c
+  let (s, e) := runFrom c s0 ts
+  (s, e0 ++ e)
+
+inductive V2dgIn
+  | v1 (r : St × List Ev)   -- downgraded: ordinary v1 run
+  | keyOnly                 -- peer answered with its v2 key; nothing delivered
+  | nothing                 -- stream ended before a byte arrived
+
+def runV2dgIn (c : Cfg) : List Tok → V2dgIn
+  | [] => .nothing
+  | .version v b :: ts => .v1 (run c (.version v b :: ts))
+  | _ :: _ => .keyOnly
+
+def v2dgOutDowngrade (ts : List Tok) : Bool := ts.isEmpty
+
 /-! ### accessor values derived from the run (`WantsHeaders`, `WantsAddrV2`, `IsWitnessEnabled`,
 and the `ProtocolVersion()` an `OnVerAck` listener sees) -/
 
